@@ -948,6 +948,15 @@ def c05_lines(r, toks, n):
     for signer in (AUTHORITY, U[0], ORB, ""):
         for _ in range(3):
             lines.append("msgh ReplaceDepositForBurn %s %s %s %s %s" % (hx(signer), hx(r.bytes(r.range(1, 40))), hx(r.bytes(r.range(1, 70))), hx(r.bytes(32)), hx(r.bytes(32))))
+    # a well-formed original CCTP message (header 116 bytes + burn message 132 bytes) with every combination of present, empty
+    # and all-zero replacement fields: the fields must reach CCTP exactly as the authority wrote them
+    def be(n, k):
+        return n.to_bytes(k, "big")
+    body = be(0, 4) + b"\x11" * 32 + b"\x22" * 32 + be(12345, 32) + b"\x33" * 32
+    orig = be(0, 4) + be(4, 4) + be(0, 4) + be(7, 8) + b"\x44" * 32 + b"\x55" * 32 + b"\x66" * 32 + body
+    for caller in (b"", b"\x77" * 32, bytes(32)):
+        for mint in (b"", b"\x88" * 32, bytes(32)):
+            lines.append("msgh ReplaceDepositForBurn %s %s %s %s %s" % (hx(AUTHORITY), hx(orig), hx(r.bytes(65)), hx(caller), hx(mint)))
     return lines
 
 
@@ -1892,10 +1901,28 @@ class C18(Base):
 
 # ----------------------------------------------------------------------------------------------- C13
 
-def c13_build(r, n_hist, limits, tier):
+def c13_genesis_doc(r):
+    """a ledger as a chain started from a genesis may hold it: several *source* protocols (the same domain number under CCTP
+    and Hyperlane), destinations whose ids are prefixes of one another, several denoms per route"""
+    srcs = [(1, "channel-0"), (1, "channel-1"), (2, "1"), (3, "1"), (2, "10"), (3, "10"), (4, "noble")]
+    dsts = [(2, "0"), (2, "1"), (3, "1"), (3, "10"), (3, "100"), (4, "noble"), (4, "nob")]
+    amts, cnts = [], []
+    for (sp, sc) in srcs:
+        for (dp, dc) in dsts:
+            if (sp, sc) == (dp, dc) or r.chance(1, 4):
+                continue
+            cnts.append("%d|%s|%d|%s|%d" % (sp, hx(sc), dp, hx(dc), r.range(1, 50)))
+            for dn in r.shuffle(["uusdc", "uother", "ueure"])[: r.range(1, 3)]:
+                amts.append("%d|%s|%d|%s|%s|%d|%d" % (sp, hx(sc), dp, hx(dc), hx(dn), r.range(1, 10 ** 9), r.range(0, 10 ** 9)))
+    return "pp=[];pcc=[];pa=[];params=0;amts=[%s];cnts=[%s]" % (",".join(amts), ",".join(cnts))
+
+
+def c13_build(r, n_hist, limits, tier, genesis=False):
     from proto import Proc, IMPL
     lines, toks = scen.base_setup(routers=((1, 50000), (2, 0), (10, 0), (11, 0), (100, 0)))
     tok = toks[0][0]
+    if genesis:
+        lines.append("genload " + c13_genesis_doc(r))
     # a ledger with many routes: sources x destinations (including ids where one is a prefix of another) x denoms
     for _ in range(n_hist):
         k = r.below(10)
@@ -2048,8 +2075,11 @@ class C13(Base):
         for h in range(self.n(tier, 1, 4)):
             r = Rng(seed * 100000 + 1300 + h)
             lines, walks = c13_build(r, self.n(tier, 60, 150), [1, 2, 3] if tier == "quick" else [1, 2, 3, 7, 50], tier)
-            f = {"query": ["res", "out", "next", "total"], "export": ["st"], "recv": ["ack", "st"], "msg": ["res", "st"]}
+            f = {"query": ["res", "out", "next", "total"], "export": ["st"], "recv": ["ack", "st"], "msg": ["res", "st"], "genload": ["res", "st"]}
             out.append(Stream("S3-pagination-walks-%d" % h, lines, fields=f, oracle=c13_make_oracle(walks), note="%d walks" % len(walks), shrink=False))
+            # the same walks on a chain started from a genesis with several source protocols, then continued by transfers
+            lines, walks = c13_build(r.fork(7), self.n(tier, 12, 40), [2, 3] if tier == "quick" else [1, 2, 3, 7, 50], tier, genesis=True)
+            out.append(Stream("S3-pagination-walks-genesis-%d" % h, lines, fields=f, oracle=c13_make_oracle(walks), note="%d walks" % len(walks), shrink=False))
         return out
 
 
